@@ -84,6 +84,37 @@ def check_visit_seq(ctx, cfg):
         n = Poly.atom(("proj", ("proj", h.ret, (("v", 1), 0))))
         ok_i = ok_i and prove(("!=", n - N), a.poly_facts(e["facts"])) and any(f[0] == "variant" and f[1] == h.ret and f[2] == 1 for f in e["facts"])
     ctx.ob(rule, K_VIS + "#precheck", ok_i and len(pre_errs) <= 1, "%d up-front rejection(s); each only under size_hint = Some(n), n != N" % len(pre_errs), at=b["at"], cfg=cfg)
+    # (i') and it is complete: elements are only read when the up-front hint is absent or announces exactly N - a source announcing fewer OR more
+    # is rejected before anything is read (every loop-free path from the hint to the first read carries `None` or `n == N`)
+    if hints and fill:
+        h = hints[0]
+        n = Poly.atom(("proj", ("proj", h.ret, (("v", 1), 0))))
+        paths, stack = [], [(h.bb, (h.bb,))]
+        while stack and len(paths) <= 200:
+            bb_, pth = stack.pop()
+            if bb_ == fill[0].bb:
+                paths.append(pth)
+                continue
+            for s_ in a.edges.get(bb_, []):
+                if a.blocks[s_]["cleanup"] or s_ in pth:
+                    continue
+                stack.append((s_, pth + (s_,)))
+        bad_p = []
+        for pth in paths:
+            fs = set()
+            for x, y in zip(pth, pth[1:]):
+                sets = a.edge_facts.get((x, y), [])
+                if sets:
+                    common = set(sets[0])
+                    for more in sets[1:]:
+                        common &= set(more)
+                    fs |= common
+            none = ("variant", h.ret, 0) in fs
+            exact = ("variant", h.ret, 1) in fs and prove(("==", n - N), a.poly_facts(frozenset(fs)))
+            if not (none or exact):
+                bad_p.append(fstr(frozenset(f for f in fs if f[0] in ("variant", "poly")))[:200])
+        ok_c = bool(paths) and len(paths) <= 200 and not bad_p
+        ctx.ob(rule, K_VIS + "#precheck-complete", ok_c, "%d path(s) from the up-front size_hint to the first element read; each under `hint is None` or `hint == Some(N)`: %s" % (len(paths), "True" if ok_c else sorted(set(bad_p))[:3]), at=b["at"], cfg=cfg)
     # (ii) fill loop
     owners = owner_adts(db)
     ok_ii = len(fill) == 1
